@@ -801,8 +801,11 @@ static bool compile_builtin_call(CG *cg, ASTNode *node) {
     }
     if (strcmp(name, "array_slice") == 0 && argc == 3) {
         compile_expr(cg, args[0]); /* array */
+        /* array_slice(arr, start, length): ARR_SLICE takes [start, end) */
         compile_expr(cg, args[1]); /* start */
-        compile_expr(cg, args[2]); /* end */
+        emit_op(cg, OP_DUP);
+        compile_expr(cg, args[2]); /* length */
+        emit_op(cg, OP_ADD);       /* end = start + length */
         emit_op(cg, OP_ARR_SLICE);
         return true;
     }
